@@ -245,11 +245,16 @@ def run(ck):
     fn = meths["__getitem__"]
     pn = fn.args.args[1].arg
     nret = 0
-    for br in [n for n in walk_body(fn) if isinstance(n, ast.If) and norm(n.test) in ("isinstance(%s, slice)" % pn, "type(%s) is slice" % pn)]:
+    # the slice branch = the returns at which `isinstance(item, slice)` is known to hold (two-armed test, guard + fall-through, either polarity)
+    from sa.facts import guard_facts as _gf, truthy as _truthy
+    from sa.cfg import CFG as _CFG
+    gcfg = _CFG(fn)
+    gfacts = _gf(gcfg)
+    slice_returns = [nd.ast for nd in gcfg.nodes if nd.kind == "stmt" and isinstance(nd.ast, ast.Return) and nd.ast.value is not None and
+                     (_truthy(gfacts.get(nd.id, frozenset()), "isinstance(%s, slice)" % pn) or _truthy(gfacts.get(nd.id, frozenset()), "type(%s) is slice" % pn))]
+    for _once in (1,):
         res = Resolver(fn)
-        for r_ in walk_local(ast.Module(body=br.body, type_ignores=[])):
-            if not isinstance(r_, ast.Return) or r_.value is None:
-                continue
+        for r_ in slice_returns:
             nret += 1
             v = res.expand_node(r_.value)
             while isinstance(v, ast.Call) and callee_attr(v) in ("array_tobytes", "bytes", "tobytes", "tostring") and (v.args or isinstance(v.func, ast.Attribute)):
